@@ -11,7 +11,9 @@
    dv - set of deviation keys switched on (known defects of the implementation, see Ledger.tla)
    s  - ledger state: bal, votes, vf (voteFor), reg ("no" | "yes" | "was"), dep, eq (asset equity), sup, frz, code;
         h (height of the block this is the end state of), T / I (term / interim duration in blocks),
-        rwd / rwt (sequences, term index + 1 -> term reward set through the precompile / how often it was set)
+        rwd / rwt (sequences, term index + 1 -> term reward set through the precompile / how often it was set),
+        idx (the accounts in the node's candidate index: candidates as of the last STABLE block - the reward block
+        enumerates the refunds from it), stab (every block of the scenario becomes stable when it is committed)
    b  - block accumulator: s, h (height of the block), start (balances at block start), fees (collected, credited at
         Finalize), rew (LEMO legitimately issued), burn (LEMO legitimately destroyed), bad (an included asset
         transaction that C12 forbids: wrong sender, non-positive issue, negative / oversized / frozen transfer)
@@ -171,14 +173,15 @@ RECURSIVE SumPay(_, _)
 SumPay(pay, i) == IF i > Len(pay) THEN 0 ELSE pay[i].n + SumPay(pay, i + 1)
 
 \* the deposits the reward block hands back: every unregistered candidate whose deposit is still recorded and that is
-\* not a deputy of the term this block starts
-Refundable(c, s, h) == {a \in DOMAIN s.bal : s.reg[a] = "was" /\ s.dep[a] > 0 /\ a \notin DeputiesAt(c, s, h)}
+\* not a deputy of the term this block starts - of the candidates whose registration is in a stable block (on a live
+\* chain every registration before the interim period is)
+Refundable(c, s, h) == {a \in DOMAIN s.bal : s.idx[a] /\ s.reg[a] = "was" /\ s.dep[a] > 0 /\ a \notin DeputiesAt(c, s, h)}
 
 \* End of block, in the order the properties need: (processor) the miner's income address receives the collected fees;
 \* (reward block only) term reward issue, then deposit refunds out of the pool; LAST every account's net balance
 \* change of the whole block - fees, transfers, reward, refund - moves the votes of the candidate it votes for at the
-\* end of the block.  Mut_VotePassBeforeRefund (a mutant, not a known defect: negative control of the design run)
-\* lets the vote pass run before the refunds.
+\* end of the block.  Two mutants (not known defects: negative controls of the design runs): Mut_VotePassBeforeRefund
+\* lets the vote pass run before the refunds, Mut_RefundNotFromPool pays the refunds without debiting the pool.
 Finalize(c, dv, b) ==
   LET s1  == [b.s EXCEPT !.bal[c.income] = @ + b.fees, !.h = b.h]
       rwb == IsReward(b.s, b.h)
@@ -186,13 +189,15 @@ Finalize(c, dv, b) ==
       s2  == PayAll(s1, pay, 1)
       R   == IF rwb THEN Refundable(c, s2, b.h) ELSE {}
       s3  == [s2 EXCEPT !.bal = [a \in DOMAIN s2.bal |-> IF a \in R THEN s2.bal[a] + s2.dep[a]
-                                                         ELSE IF a = c.pool THEN s2.bal[a] - SumOver(s2.dep, R) ELSE s2.bal[a]],
+                                                         ELSE IF a = c.pool /\ "Mut_RefundNotFromPool" \notin dv
+                                                              THEN s2.bal[a] - SumOver(s2.dep, R) ELSE s2.bal[a]],
                         !.dep = [a \in DOMAIN s2.dep |-> IF a \in R THEN 0 ELSE s2.dep[a]]]
       sv  == IF "Mut_VotePassBeforeRefund" \in dv THEN s2 ELSE s3
       dl  == [a \in DOMAIN sv.bal |-> IF sv.vf[a] # NONE /\ sv.reg[sv.vf[a]] = "yes"
                                        THEN W(c, sv.bal[a]) - W(c, b.start[a]) ELSE 0]
   IN [b EXCEPT !.s = [s3 EXCEPT !.votes = [x \in DOMAIN s3.votes |->
-                                            s3.votes[x] + SumOver(dl, {a \in DOMAIN s3.bal : s3.vf[a] = x})]],
+                                            s3.votes[x] + SumOver(dl, {a \in DOMAIN s3.bal : s3.vf[a] = x})],
+                              !.idx = IF s3.stab THEN [a \in DOMAIN s3.idx |-> s3.idx[a] \/ s3.reg[a] # "no"] ELSE @],
                !.fees = 0, !.rew = @ + SumPay(pay, 1)]
 
 Block(c, dv, s, q) == Finalize(c, dv, ApplyAll(c, dv, Begin(s), q, 1))
